@@ -125,7 +125,115 @@ func dropZero(s *tree.SNode, c *tree.Cont) {
 	}
 }
 
-// distinct keys after nonZero (two rows may have collapsed onto the same key)
+// c18ZeroBias sets int32/string leaves (key leaves included) to the Go zero value with probability 1/3:
+// struct-backed targets then hold entries whose key is 0 / "" and entries that are all-zero structs
+func c18ZeroBias(r *gen.Rng, s *tree.SNode, c *tree.Cont) { c18ZeroBiasX(r, s, c, true) }
+
+func c18ZeroBiasNonKey(r *gen.Rng, s *tree.SNode, c *tree.Cont) { c18ZeroBiasX(r, s, c, false) }
+
+func c18ZeroBiasX(r *gen.Rng, s *tree.SNode, c *tree.Cont, keysToo bool) {
+	isKey := map[int]bool{}
+	for _, k := range s.Keys {
+		isKey[k] = true
+	}
+	for i, kid := range s.Kids {
+		switch kid.Kind {
+		case tree.KLeaf:
+			if v, ok := c.Leaves[kid.Name]; ok && isKey[i] && v == val.String("") {
+				c.Leaves[kid.Name] = val.String("z")
+			}
+			if v, ok := c.Leaves[kid.Name]; ok && (keysToo || !isKey[i]) && r.Chance(1, 3) {
+				switch v.(type) {
+				case val.Int32:
+					c.Leaves[kid.Name] = val.Int32(0)
+				case val.String:
+					// "" as a KEY is not generated: nodeutil.Reflect does not read an empty string
+					// back as a leaf, so such an entry has no key to be addressed by
+					if !isKey[i] {
+						c.Leaves[kid.Name] = val.String("")
+					}
+				}
+			}
+		case tree.KCont:
+			if sub := c.Conts[kid.Name]; sub != nil {
+				c18ZeroBiasX(r, kid, sub, true)
+			}
+		case tree.KList:
+			if l := c.Lists[kid.Name]; l != nil {
+				for _, row := range l.Rows {
+					c18ZeroBiasX(r, kid, row, true)
+				}
+			}
+		}
+	}
+}
+
+// c18DropLists removes whole top-level lists from an initial tree (probability 1/2 each): edits then
+// meet target lists that do not exist yet and have to be created by the edit itself
+func c18DropLists(r *gen.Rng, s *tree.SNode, c *tree.Cont) {
+	for _, kid := range s.Kids {
+		if kid.Kind == tree.KList && c.Lists[kid.Name] != nil && r.Chance(1, 2) {
+			delete(c.Lists, kid.Name)
+		}
+	}
+}
+
+func c18RowKeyID(s *tree.SNode, row *tree.Cont) (string, bool) {
+	id := ""
+	for _, k := range s.Keys {
+		v := row.Leaves[s.Kids[k].Name]
+		if v == nil {
+			return "", false
+		}
+		id += v.String() + "\x00"
+	}
+	return id, true
+}
+
+func c18HasDupKey(s *tree.SNode, l *tree.List) bool {
+	seen := map[string]bool{}
+	for _, row := range l.Rows {
+		if id, ok := c18RowKeyID(s, row); ok {
+			if seen[id] {
+				return true
+			}
+			seen[id] = true
+		}
+	}
+	return false
+}
+
+// c18InjectDups makes a payload name the same key twice: for top-level lists with rows (probability
+// 1/2 each) a further row with the key of an earlier row and content of its own is added at a
+// random later position
+func c18InjectDups(r *gen.Rng, s *tree.SNode, c *tree.Cont, zero bool) bool {
+	did := false
+	for _, kid := range s.Kids {
+		l := c.Lists[kid.Name]
+		if kid.Kind != tree.KList || l == nil || len(l.Rows) == 0 || !r.Chance(1, 2) {
+			continue
+		}
+		at := r.Intn(len(l.Rows))
+		if _, ok := c18RowKeyID(kid, l.Rows[at]); !ok {
+			continue
+		}
+		nrow := tree.GenData(r, kid, 70, 2)
+		if zero {
+			c18ZeroBiasNonKey(r, kid, nrow)
+		}
+		for _, k := range kid.Keys {
+			nrow.Leaves[kid.Kids[k].Name] = l.Rows[at].Leaves[kid.Kids[k].Name]
+		}
+		pos := at + 1 + r.Intn(len(l.Rows)-at)
+		rows := append([]*tree.Cont{}, l.Rows[:pos]...)
+		rows = append(rows, nrow)
+		l.Rows = append(rows, l.Rows[pos:]...)
+		did = true
+	}
+	return did
+}
+
+// distinct keys after c18ZeroBias (two rows may have collapsed onto the same key)
 func dedupRows(s *tree.SNode, c *tree.Cont) {
 	for _, kid := range s.Kids {
 		if kid.Kind != tree.KList || c.Lists[kid.Name] == nil {
@@ -156,9 +264,10 @@ func c18StructHistories(ctx *core.Ctx, r *gen.Rng, count int) error {
 	for n := 0; n < count; n++ {
 		dr := r.Fork(uint64(n))
 		universe := tree.GenData(dr, root, 90, 4)
-		nonZero(root, universe)
+		c18ZeroBias(dr, root, universe)
 		dedupRows(root, universe)
 		init := tree.Subsample(dr, root, universe, 85, 0)
+		c18DropLists(dr, root, init)
 		steps := 2 + dr.Intn(6)
 		seed := dr.U64()
 		for kind := 2; kind < 4; kind++ {
